@@ -18,14 +18,15 @@ from ..oracles.refpatch import refpatch, RefPatchError
 ID = "C20"
 LEVEL = "exploration"
 RULE = ("histories: a server started by the real nbdimeserver.init_app on a loopback port in one of the modes {plain, diff tool with file "
-        "names, diff tool with file-like blobs, merge tool with output file, merge tool without output file} x closable or not x base URL "
-        "'/' or '/pre/x/', over 3 generated notebook files plus a non-notebook and a broken .ipynb file; then 3-12 requests: valid "
+        "names, diff tool with file-like blobs, merge tool with output file, in place (output = local), into a directory that does not exist, merge tool without output file} x "
+        "closable or not x base URL '/', '/pre/x/' or '/user/j.doe+lab/', over 3 generated notebook files plus a non-notebook and a broken .ipynb file; then 3-12 requests: valid "
         "diff/merge/store/closetool, malformed JSON, missing keys, non-notebook / non-existent / broken files, wrong prefix or unknown path, "
-        "GET on API endpoints, store bodies carrying extra 'path' / 'outputfilename' / '../' fields or a non-notebook 'merged'. Oracles: diff "
+        "GET on API endpoints, store bodies carrying extra 'path' / 'outputfilename' / '../' fields or a non-notebook 'merged', store bodies whose notebook holds a lone surrogate; another program rewriting a served "
+        "notebook between two requests. Oracles: diff "
         "answer = library diff and the reference patcher turns resp.base into the remote notebook; merge answer = "
         "decide_notebook_merge under the web tool's arguments; store writes exactly the submitted notebook to cwd/outputfilename fixed at "
         "start-up, only on 2xx, 400 and nothing written when none was fixed; shutdown requested iff closable and the close request was "
-        "accepted; every malformed request gets status >= 400, leaves the hash of every file under the temp root unchanged and a repeated "
+        "accepted; every malformed request gets status >= 400, leaves the hash of every file and the set of directories under the temp root unchanged and a repeated "
         "valid request afterwards gets the same body as the first time. Non-trivial: >=1 malformed and >=2 valid requests incl. a store; "
         "distinct = canonical JSON of the program.")
 ASSUMPTIONS = ["jupyter_server / jinja2 stubs (vp/../stubs) so the real handlers import", "IOLoop.stop requested by the close handler is intercepted by the "
